@@ -77,7 +77,7 @@ theorem parse_torn_checkpoint (t : FTxn) (pos : Nat) (more : Bytes)
 /-! ### the crash theorem -/
 
 /-- For EVERY history of two-phase commits (commit, abort after vote, failing vote, abort before
-    vote; transactions with arbitrary records: stores, deletes, undo back pointers, restores) on a
+    vote, finish whose fsync raises; transactions with arbitrary records: stores, deletes, undo back pointers, restores) on a
     file that already holds any well-formed `cs`, and EVERY cut `(k, nb)` of its event trace
     (event prefix + byte prefix of the next write, i.e. every chunking of every write):
     reopening the crash image succeeds and yields exactly the cleanly written file of the first `n`
@@ -92,17 +92,19 @@ theorem crash_prefix (cs : List FTxn) (ops : List Op) (hcs : FileWF cs) (hops : 
         r.IsClean (cs ++ (newCommits cs ops).take n) :=
   Proofs.Disk.crash_prefix ops cs k hcs hops nb
 
-/-- Without a crash the file holds every commit of the history, and every commit returned. -/
+/-- Without a crash the file holds every commit of the history; every commit that returned is among
+    them (a tpc_finish whose fsync raised has its transaction in the file without having returned). -/
 theorem no_crash_all_committed (cs : List FTxn) (ops : List Op) (hcs : FileWF cs)
     (hops : OpsWF cs ops) :
     applyEvents (encodeFile cs) (trace cs ops) = encodeFile (cs ++ newCommits cs ops) ∧
-    FileWF (cs ++ newCommits cs ops) ∧ returned (trace cs ops) = (newCommits cs ops).length :=
+    FileWF (cs ++ newCommits cs ops) ∧ returned (trace cs ops) ≤ (newCommits cs ops).length :=
   Proofs.Disk.trace_apply ops cs hcs hops
 
 /-- A commit does not return before its data has been forced to stable storage: every `ret` in
-    every trace is immediately preceded by `write p vote-bytes`, `write (p+16) status-byte`,
-    `fsync`, and no later event of the history writes or truncates below the end of that
-    transaction. -/
+    every trace is immediately preceded by `write p vote-bytes`, `write (p+16) status-byte` and an
+    fsync that SUCCEEDED (`Ev.fsync`; an fsync that raises is `Ev.fsyncFailed`, after which
+    `_finish` closes the storage and re-raises: the history `finishFsyncFails` has no `ret`), and
+    no later event of the history writes or truncates below the end of that transaction. -/
 theorem fsync_before_return (cs : List FTxn) (ops : List Op) (hops : OpsWF cs ops)
     (pre post : List Ev) (h : trace cs ops = pre ++ .ret :: post) :
     ∃ pre' p w s, pre = pre' ++ [.write p w, .write (p + 16) s, .fsync] ∧ 16 < w.length ∧
@@ -163,6 +165,12 @@ def recoveredCount (b : Bytes) : Option (Nat × Nat × Nat) :=
   | .error _ => none
 
 example : FileWF [] ∧ OpsWF [] exOps := by decide
+-- a finish whose fsync raises: the transaction is in the file, nothing has returned
+example : trace [] [.finishFsyncFails exT1] =
+      [.write 4 (voteBytes 4 exT1), .write 20 [32], .fsyncFailed] ∧
+    returned (trace [] [.finishFsyncFails exT1]) = 0 ∧
+    recoveredCount (image (encodeFile []) (trace [] [.finishFsyncFails exT1]) 3 0) = some (1, 83, 1000) := by
+  decide +kernel
 /- trace: w4+79 w20+1 fsync ret | w83+125 t83 | w83+125 w99+1 fsync ret | w208+30 t208 | w208+81 w224+1 fsync ret -/
 example : (trace [] exOps).length = 16 ∧ returned (trace [] exOps) = 3 := by decide +kernel
 -- cut 70 bytes into the second vote write of exT2 (inside its first record): exT1 only
